@@ -92,6 +92,13 @@ class CEval:
                     sub = self.ev(node.args[0], depth + 1)
                     return Node("Adapter", None, sub.size, [sub], {"adapter": ci.name, "mod": sub.info.get("mod")}, node.lineno)
             raise AnalysisError(f"construct: unsupported call {dn}")
+        if isinstance(node, ast.Subscript) and not isinstance(node.slice, ast.Slice):
+            # subcon[count] is construct's spelling of Array(count, subcon)
+            fake = ast.Call(func=ast.Attribute(value=ast.Name(id="construct", ctx=ast.Load()), attr="Array", ctx=ast.Load()),
+                            args=[node.slice, node.value], keywords=[])
+            ast.copy_location(fake, node)
+            ast.fix_missing_locations(fake)
+            return self.call("Array", fake, depth)
         raise AnalysisError(f"construct: unsupported expression {ast.unparse(node)[:60]}")
 
     def atom(self, short: str, node) -> Node:
@@ -167,6 +174,11 @@ class CEval:
             if isinstance(val, bytes):
                 return Node("Const", None, ("fixed", len(val)), [], {"value": val, "mod": len(val) % 8}, ln)
             raise AnalysisError("construct: Const form not understood")
+        if short == "LazyArray":
+            # parses nothing while the enclosing struct is read: the items are read from the stream when they are asked for,
+            # moving it again - not the same field as an Array
+            inner = self.call("Array", node, depth)
+            return Node("LazyArray", None, inner.size, inner.children, dict(inner.info), ln)
         if short == "Array":
             sub = self.ev(a[1], depth + 1)
             cnt = self.const_int(a[0])
